@@ -68,6 +68,10 @@ func (l *limitTransport) Write(b []byte) (int, error) {
 type Case struct {
 	Binary bool   `json:"binary"`
 	Items  []Item `json:"items"`
+	// Ser: after the items were judged one by one, all batches are encoded once more through ONE
+	// reused thrift.TSerializer, every result is kept, and only then all of them are decoded:
+	// an encoding, once returned, is the caller's
+	Ser bool `json:"ser,omitempty"`
 }
 
 func genStr() *rapid.Generator[pbt.S] {
@@ -116,7 +120,7 @@ func genMetric() *rapid.Generator[Metric] {
 }
 
 func gen(t *rapid.T) Case {
-	c := Case{Binary: rapid.Bool().Draw(t, "binary")}
+	c := Case{Binary: rapid.Bool().Draw(t, "binary"), Ser: rapid.IntRange(0, 2).Draw(t, "ser") == 0}
 	n := rapid.IntRange(1, 4).Draw(t, "nitems")
 	nfail := 0
 	if rapid.IntRange(0, 2).Draw(t, "failing?") == 0 {
@@ -412,6 +416,47 @@ func run(c Case) (pbt.Outcome, error) {
 	}
 	if failed > 0 {
 		out.Classes = append(out.Classes, fmt.Sprintf("after-%d-failed-writes", failed))
+	}
+	if c.Ser {
+		smem := thrift.NewTMemoryBufferLen(64)
+		ser := &thrift.TSerializer{Transport: smem, Protocol: fac.GetProtocol(smem)}
+		type kept struct {
+			ii  int
+			mb  m3thrift.MetricBatch
+			enc []byte
+			str bool
+		}
+		var all []kept
+		for ii, it := range c.Items {
+			if it.FailAt > 0 {
+				continue
+			}
+			mb := toBatch(it.Batch)
+			if ii%3 == 2 {
+				str, err := ser.WriteString(&mb)
+				if err != nil {
+					errs.Addf("item %d: TSerializer.WriteString: %v", ii, err)
+					continue
+				}
+				all = append(all, kept{ii, mb, []byte(str), true})
+				continue
+			}
+			enc, err := ser.Write(&mb)
+			if err != nil {
+				errs.Addf("item %d: TSerializer.Write: %v", ii, err)
+				continue
+			}
+			all = append(all, kept{ii, mb, enc, false}) // kept as returned, not copied
+		}
+		for _, k := range all {
+			var d m3thrift.MetricBatch
+			if err := d.Read(decProtoFor(k.enc)); err != nil {
+				errs.Addf("item %d: the encoding returned by the reused TSerializer no longer decodes after later encodings: %v", k.ii, err)
+			} else if s := eqBatch(k.mb, d); s != "" {
+				errs.Addf("item %d: the encoding returned by the reused TSerializer decodes to another batch after later encodings: %s", k.ii, s)
+			}
+		}
+		out.Classes = append(out.Classes, "reused-serializer")
 	}
 	return out, errs.Err()
 }
